@@ -802,6 +802,7 @@ Chunk *Chunk::GetClosingParen(E_Scope scope) const
       || Is(CT_SPAREN_OPEN)
       || Is(CT_FPAREN_OPEN)
       || Is(CT_TPAREN_OPEN)
+      || Is(CT_LPAREN_OPEN)
       || Is(CT_BRACE_OPEN)
       || Is(CT_VBRACE_OPEN)
       || Is(CT_ANGLE_OPEN)
@@ -819,6 +820,7 @@ Chunk *Chunk::GetOpeningParen(E_Scope scope) const
       || Is(CT_SPAREN_CLOSE)
       || Is(CT_FPAREN_CLOSE)
       || Is(CT_TPAREN_CLOSE)
+      || Is(CT_LPAREN_CLOSE)
       || Is(CT_BRACE_CLOSE)
       || Is(CT_VBRACE_CLOSE)
       || Is(CT_ANGLE_CLOSE)
